@@ -7,6 +7,16 @@ From DV Require Import Base.Prelude Base.Int Base.WrapZ Gen.Consts Gen.Arith
 From Coq Require Import Sorting.Sorted Sorting.Permutation.
 Local Open Scope Z_scope.
 
+(* The model's coordinate arithmetic is, word for word, what the translator generates from the
+   current Go source (Gen/Arith.v is rebuilt on every run). *)
+Theorem C18_source_tie :
+  g_EncodeBlockIndex = r_EncodeBlockIndex /\ g_DecodeBlockIndex = r_DecodeBlockIndex
+  /\ g_BlockIndexToIZYXString = r_BlockIndexToIZYXString
+  /\ g_BlockIndexToIZYXString_via = r_BlockIndexToIZYXString_via
+  /\ g_Point3d_ToZYXBytes = r_Point3d_ToZYXBytes /\ g_Point3d_FromZYXBytes = r_Point3d_FromZYXBytes
+  /\ g_Point3d_Chunk = r_Point3d_Chunk.
+Proof. exact source_tie. Qed.
+
 (* ---------- block-coordinate keys: for ALL int32 coordinates ---------- *)
 
 (* Encoding a block coordinate gives 12 bytes that decode to the same coordinate. *)
@@ -124,14 +134,33 @@ Theorem C18_add_union : forall l l2, Forall run_ok l -> Forall run_ok l2 ->
 Proof. exact add_union_l. Qed.
 Print Assumptions C18_add_union.
 
-(* the returned count is NOT the number of new voxels when an added run bridges two runs *)
+(* ... and its count (repaired code, repo_patches/C18-3-fix.diff) is the number of voxels added:
+   for every run of l2 in turn there are ordered, pairwise separate pieces of it that hold exactly
+   its voxels found neither in l nor in the earlier runs of l2, and the count is their total length *)
+Theorem C18_add_count : forall l l2, Forall run_ok l -> Forall run_ok l2 ->
+  exists news, new_parts l l2 news /\ snd (add l l2) = fold_right (fun fr s => num_voxels fr + s) 0 news.
+Proof. exact add_count_l. Qed.
+Print Assumptions C18_add_count.
+
+(* the code before C18-3 builds the same runs ... *)
+Theorem C18_add_orig_same_runs : forall l2 l a b, fst (add_runs_orig l l2 a) = fst (add_runs l l2 b).
+Proof. exact add_orig_same_runs. Qed.
+(* ... but its count is NOT the number of new voxels when an added run bridges two runs *)
 Theorem C18_add_count_refuted :
   exists l l2, Forall run_ok l /\ Forall run_ok l2 /\ pairwise_disjoint l /\
-    snd (add l l2) = 3 /\
+    snd (add_orig l l2) = 3 /\
     let count l := Z.of_nat (length (filter (fun x => inrs (Z.of_nat x, 0, 0) l) (seq 0 20))) in
-    (forall p, inrs p (fst (add l l2)) = true -> py p = 0 /\ pz p = 0 /\ 0 <= px p < 20) /\
-    count (fst (add l l2)) - count l = 1.
+    (forall p, inrs p (fst (add_orig l l2)) = true -> py p = 0 /\ pz p = 0 /\ 0 <= px p < 20) /\
+    count (fst (add_orig l l2)) - count l = 1.
 Proof. exact add_count_refuted. Qed.
+
+(* Split when the split runs share no voxel with the runs (not a subset): the error return *)
+Theorem C18_split_disjoint_error : forall rles splits,
+  Forall run_ok rles -> Forall run_ok splits -> splits <> [] ->
+  pairwise_disjoint rles -> pairwise_disjoint splits ->
+  (forall p, inrs p splits = true -> inrs p rles = false) -> split rles splits = Err.
+Proof. exact split_disjoint_err. Qed.
+Print Assumptions C18_split_disjoint_error.
 
 (* binary encoding, for all int32 field values *)
 Theorem C18_marshal_roundtrip : forall l, Forall run32 l -> unmarshal (marshal l) = Ok l.
